@@ -40,6 +40,11 @@ var c04e3SendVariants = []c04e3SendVariant{
 	{"write|cancelwrite|pop-lose", 5000, [][]string{{"w10"}, {"cancelw"}, {"pop", "loseall"}}},
 	{"write-close|cancelwrite|popsmall-ack-rst", 5000, [][]string{{"w5", "close"}, {"cancelw"}, {"popsmall", "ackall", "rst"}}},
 	{"close|pop-ack|pop-ack", 5000, [][]string{{"w3", "close"}, {"pop", "ackall"}, {"pop", "ackall"}}},
+	// through the real framer (streams announce themselves from the application's goroutine,
+	// the run loop packs): a lost activation leaves written bytes unsent for ever
+	{"framer:write-write|packet-packet", 5000, [][]string{{"w4", "w4"}, {"packet", "packet"}}},
+	{"framer:write-close|packet|packet", 5000, [][]string{{"w6", "close"}, {"packet"}, {"packet"}}},
+	{"framer:write|packet-lose-packet|msd", 500, [][]string{{"w8"}, {"packet", "loseall", "packet"}, {"msd"}}},
 }
 
 func c04e3SendScenario(v c04e3SendVariant) func() *sched.Scenario {
@@ -49,6 +54,11 @@ func c04e3SendScenario(v c04e3SendVariant) func() *sched.Scenario {
 		cfc.UpdateSendWindow(1 << 20)
 		sfc := flowcontrol.NewStreamFlowController(4, cfc, 1<<20, 1<<20, protocol.ByteCount(v.Window), rtt, utils.DefaultLogger)
 		snd := &c04Snd{}
+		var fr *framer
+		if len(v.Name) > 7 && v.Name[:7] == "framer:" {
+			fr = newFramer(cfc)
+			snd.fr = fr
+		}
 		ss := newSendStream(context.Background(), 4, snd, sfc, false)
 		limit := v.Window
 		written, hi := 0, 0
@@ -111,6 +121,13 @@ func c04e3SendScenario(v c04e3SendVariant) func() *sched.Scenario {
 				}
 				return func() {
 					if sf, _, _ := ss.popStreamFrame(budget, protocol.Version1); sf.Frame != nil {
+						onFrame(sf)
+					}
+				}
+			case name == "packet":
+				return func() {
+					_, sfs, _ := fr.Append(nil, nil, 700, 0, protocol.Version1)
+					for _, sf := range sfs {
 						onFrame(sf)
 					}
 				}
@@ -181,6 +198,27 @@ func c04e3SendScenario(v c04e3SendVariant) func() *sched.Scenario {
 				for _, b := range blocked {
 					if reset {
 						return explore.Failf("e3:blocked-after-reset", "%s: %s is still blocked after the stream was reset", v.Name, b)
+					}
+				}
+				if fr != nil && !reset && len(blocked) == 0 {
+					// the run loop keeps packing while the framer says there is data: everything that
+					// was written and fits the delivered limits must go out
+					for i := 0; i < 20; i++ {
+						_, sfs, _ := fr.Append(nil, nil, 1200, 0, protocol.Version1)
+						if len(sfs) == 0 {
+							break
+						}
+						for _, sf := range sfs {
+							onFrame(sf)
+							sf.Handler.OnAcked(sf.Frame)
+						}
+						inflight = nil
+					}
+					if fail != nil {
+						return fail
+					}
+					if want := min(written, limit); hi < want {
+						return explore.Failf("e3:written-bytes-never-sent", "%s: %d bytes were written and the peer's limit is %d, but the framer hands out nothing beyond offset %d any more (a stream that announced data was forgotten)", v.Name, written, limit, hi)
 					}
 				}
 				return nil
